@@ -62,6 +62,24 @@ static int check_now(const char *site, const char *what)
 		vf_viol("decoder-crc-length", "%s: accessor mismatch", what);
 		return 0;
 	}
+	if ((E.nsyms & 7) == 5 && sl > 0 && sl <= 4000 && E.elen > 0) {
+		/* the stream reaches the decoder through another -lh1- decoder (a stream of literals holding its bytes)
+		 * whose read function is called from inside the input callback with the caller's buffer */
+		static uint8_t inner_stream[40000];
+		size_t il, tot = 0, g;
+		LHADecoder *inner, *outer;
+		il = literal_stream("-lh1-", SBUF, sl, inner_stream, sizeof inner_stream);
+		VIN2.p = inner_stream; VIN2.n = il; VIN2.pos = 0;
+		inner = il ? lha_decoder_new(lha_decoder_for_name("-lh1-"), vin2_cb, &VIN2, sl) : NULL;
+		outer = inner ? lha_decoder_new(lha_decoder_for_name("-lh1-"), dec_nest_cb, inner, E.elen) : NULL;
+		if (outer) {
+			while (tot <= E.elen && (g = lha_decoder_read(outer, OBUF + tot, E.elen + 1 - tot)) > 0) tot += g;
+			if (tot != E.elen || memcmp(OBUF, EBUF, E.elen))
+				vf_viol("decoder-chained", "%s: output differs when the input comes through another decoder called from the input callback (%zu of %zu bytes)", what, tot, E.elen);
+			lha_decoder_free(outer);
+		}
+		if (inner) lha_decoder_free(inner);
+	}
 	if ((E.nsyms & 7) == 3) {
 		/* the same stream with the input delivered in pieces of 1..3 bytes */
 		int ch = 1 + (int) (E.nsyms % 3);
